@@ -188,13 +188,19 @@ impl Distribution<i64> for NewInt {
 struct NewGene;
 impl Distribution<PushGene> for NewGene {
     fn sample<R: Rng + ?Sized>(&self, rng: &mut R) -> PushGene {
-        let k: u32 = rng.random_range(0..3);
+        let k: u32 = rng.random_range(0..4);
+        if k == 3 {
+            return PushGene::Close;
+        }
         PushGene::Instruction(VariableName::from(format!("n{k}").as_str()).into())
     }
 }
 
-fn plushy_parent(n: usize) -> Plushy {
-    Plushy::new((1..=n).map(|p| PushGene::Instruction(PushInstruction::PrintString(PrintString(p.to_string())))))
+/// gene codes: 0 = close marker, p > 0 = the instruction tagged p
+fn plushy_parent(codes: &[i64]) -> Plushy {
+    Plushy::new(codes.iter().map(|p| {
+        if *p == 0 { PushGene::Close } else { PushGene::Instruction(PushInstruction::PrintString(PrintString(p.to_string()))) }
+    }))
 }
 
 fn plushy_json(p: &Plushy) -> Vec<i64> {
@@ -205,6 +211,7 @@ fn plushy_json(p: &Plushy) -> Vec<i64> {
             PushGene::Instruction(PushInstruction::InputVar(v)) => {
                 1000 + v.to_string()[1..].parse::<i64>().unwrap_or(-1000)
             }
+            PushGene::Close => 0,
             _ => -1,
         })
         .collect()
@@ -232,6 +239,31 @@ pub fn trace(args: &[String]) -> i32 {
             _ => Box::new(run_rng(seed, 0xC1F, run)),
         };
         let ev = match kind {
+            // bit-flip mutation of LONG genomes (only scalars are logged): same length, no error; rate 0
+            // changes nothing, rate >= 1 flips everything
+            _ if run % 131 == 17 => {
+                let len = [255usize, 256, 65_535, 65_536, 65_537, 1 << 20, (1 << 24) - 1, 1 << 24, (1 << 24) + 1][rng.random_range(0..9)];
+                let bitsform = rng.random::<bool>();
+                let ool = rng.random_range(0..2) == 0;
+                let (num, den) = frac(&mut rng, &[(0, 1), (1, 2), (1, 1), (3, 2)]);
+                let g: Vec<bool> = (0..len).map(|_| rng.random()).collect();
+                let res = guarded(|| -> Result<Vec<bool>, String> {
+                    let rate = num as f32 / den as f32;
+                    match (bitsform, ool) {
+                        (false, false) => { let Ok(c) = WithRate::new(rate).mutate(g.clone(), &mut *op_rng); Ok(c) }
+                        (true, false) => { let Ok(c) = WithRate::new(rate).mutate(Bitstring { bits: g.clone() }, &mut *op_rng); Ok(c.bits) }
+                        (false, true) => WithOneOverLength.mutate(g.clone(), &mut *op_rng).map_err(|e| format!("{e:?}")),
+                        (true, true) => WithOneOverLength.mutate(Bitstring { bits: g.clone() }, &mut *op_rng).map(|c| c.bits).map_err(|e| format!("{e:?}")),
+                    }
+                });
+                let res = match res {
+                    Ok(Ok(c)) => json!({"k": "ok", "len": c.len(), "changed": c.iter().zip(&g).filter(|(a, b)| a != b).count()}),
+                    Ok(Err(e)) => json!({"k": "error", "msg": e}),
+                    Err(m) => json!({"k": "panic", "msg": m}),
+                };
+                json!({"ev": "mut", "run": run, "stream": stream, "op": "bigflip", "ool": ool, "form": if bitsform { "bits" } else { "vec" },
+                       "num": num, "den": den, "len": len, "res": res})
+            }
             0..=3 => {
                 let op = if rng.random() { "two_point" } else { "uniform" };
                 let form = FORMS[rng.random_range(0..4)];
@@ -306,6 +338,8 @@ pub fn trace(args: &[String]) -> i32 {
                 let ctor = ["new", "with_empty", "without_empty"][rng.random_range(0..3)];
                 let (add, del, emp) = (f64::from(an) / f64::from(ad), f64::from(dn) / f64::from(dd), f64::from(en) / f64::from(ed));
                 let plushy = rng.random::<bool>();
+                // Plushy parents contain close markers (code 0), also at the very end
+                let codes: Vec<i64> = (1..=n as i64).map(|p| if plushy && (rng.random_range(0..4) == 0 || (p == n as i64 && rng.random())) { 0 } else { p }).collect();
                 let res = guarded(|| -> Vec<i64> {
                     if plushy {
                         let u = match ctor {
@@ -313,7 +347,7 @@ pub fn trace(args: &[String]) -> i32 {
                             "with_empty" => Umad::new_with_empty_rate(add, emp, del, NewGene),
                             _ => Umad::new_without_empty(add, del, NewGene),
                         };
-                        let Ok(c) = u.mutate(plushy_parent(n), &mut *op_rng);
+                        let Ok(c) = u.mutate(plushy_parent(&codes), &mut *op_rng);
                         plushy_json(&c)
                     } else {
                         let u = match ctor {
@@ -337,7 +371,8 @@ pub fn trace(args: &[String]) -> i32 {
                 };
                 json!({"ev": "mut", "run": run, "stream": stream, "op": "umad", "form": if plushy { "plushy" } else { "vector" },
                        "ctor": ctor, "addN": an, "addD": ad, "delN": dn, "delD": dd, "ek": ek, "eN": e_n, "eD": e_d,
-                       "g": (1..=n as i64).collect::<Vec<i64>>(), "res": res})
+                       "new": if plushy { vec![0, 1000, 1001, 1002] } else { vec![1000, 1001, 1002] },
+                       "g": codes, "res": res})
             }
         };
         out.line(&ev);
